@@ -1354,6 +1354,25 @@ def c12_sites(repo_root, tier):
     fn = em.find("Identifier.as_source") if em else None
     ok = fn is not None and "if is_token_type(self.token, TokenType.WORD):\n    return str(self)" in ast.unparse(fn).replace("\n        ", "\n    ")
     _ob(obs, "liquid2.builtin.expressions:Identifier.as_source/site.bare-only-if-word", ok, "an identifier is printed bare only if it was lexed as a WORD token; otherwise quoted with backslash and quote escaped")
+    # (f) pickling: a class whose __new__ takes required keyword-only arguments tells pickle about them (the default protocol
+    #     re-creates the object with cls.__new__(cls, *args) only); node and expression classes are plain slotted objects
+    for m in repo.all_modules():
+        for cname, c in m.classes.items():
+            newfn = next((st for st in c.body if isinstance(st, ast.FunctionDef) and st.name == "__new__"), None)
+            if newfn is None:
+                continue
+            req_kw = [a.arg for a, d in zip(newfn.args.kwonlyargs, newfn.args.kw_defaults) if d is None]
+            if not req_kw:
+                continue
+            has = any(isinstance(st, ast.FunctionDef) and st.name in ("__getnewargs_ex__", "__reduce__", "__reduce_ex__") for st in c.body)
+            srcr = ""
+            for st in c.body:
+                if isinstance(st, ast.FunctionDef) and st.name == "__getnewargs_ex__":
+                    srcr = ast.unparse(st)
+            okp = has and all(f"'{k}'" in srcr or f'"{k}"' in srcr for k in req_kw) if srcr else has
+            _ob(obs, f"{m.name}:{cname}/site.picklable-new", okp,
+                f"{cname}.__new__ requires keyword-only {req_kw}; the class passes them to pickle through __getnewargs_ex__" if okp
+                else f"{cname}.__new__ requires keyword-only {req_kw} but the class defines no __getnewargs_ex__/__reduce__: unpickling a template that contains one fails")
     # (e) a branch tag is printed whenever the branch exists (its markers trim neighbouring text even when its block is empty)
     for mn, cn in (("liquid2.builtin.tags.if_tag", "IfNode"), ("liquid2.builtin.tags.unless_tag", "UnlessNode"), ("liquid2.builtin.tags.case_tag", "CaseNode"), ("liquid2.builtin.tags.for_tag", "ForNode")):
         m2 = repo.module(mn)
